@@ -41,14 +41,18 @@ Pairs(hp, alpha, n, rules) == TLCEval(
      WellFormed(c.a) /\ WellFormed(c.b)})
 AllHeadPairs == {<<x[1], x[2], y[1], y[2]>> : x \in Heads, y \in Heads}
 
-\* UNION + TLCEval: the set is built explicitly once (TLC's binary \cup of large sets is quadratic)
-ScopeCases == IF Which # "scope" THEN {} ELSE TLCEval(UNION {
-              Pairs(HeadPairs, DeepAlpha, DeepMax, {"rfc3986"}),
-              Pairs(SameHeadPair, WideAlpha, WideMax, {"rfc3986", "absent"}),
-              Pairs(AllHeadPairs, DeepAlpha, HeadMax, Rules),
-              Pairs(HeadPairs, DeepAlpha, StrMax, {"strcmp0"}) })
+\* four sub-domains; never united inside TLC (its union of large explicit sets is quadratic): the initial
+\* predicate is a disjunction and the emission a concatenation, the harness removes the duplicates
+ScopeD1 == IF Which # "scope" THEN {} ELSE Pairs(HeadPairs, DeepAlpha, DeepMax, {"rfc3986"})
+ScopeD2 == IF Which # "scope" THEN {} ELSE Pairs(SameHeadPair, WideAlpha, WideMax, {"rfc3986", "absent"})
+ScopeD3 == IF Which # "scope" THEN {} ELSE Pairs(AllHeadPairs, DeepAlpha, HeadMax, Rules)
+ScopeD4 == IF Which # "scope" THEN {} ELSE Pairs(HeadPairs, DeepAlpha, StrMax, {"strcmp0"})
+ScopeCaseSeq == SetToSeq(ScopeD1) \o SetToSeq(ScopeD2) \o SetToSeq(ScopeD3) \o SetToSeq(ScopeD4)
 
-ScopeInit == case \in ScopeCases
+ScopeInit == \/ case \in ScopeD1
+             \/ case \in ScopeD2
+             \/ case \in ScopeD3
+             \/ case \in ScopeD4
 Stay == UNCHANGED case
 ScopeSpec == ScopeInit /\ [][Stay]_case
 
@@ -120,13 +124,12 @@ LawSelect == /\ Select(case.srvs, case.flt) \subseteq DOMAIN case.srvs
              /\ \A i \in DOMAIN case.srvs : (i \in Select(case.srvs, case.flt)) = MatchesFilter2(case.srvs[i], case.flt)
 
 \* ---- emission ---------------------------------------------------------------------
-Cases == (CASE Which = "scope" -> ScopeCases [] Which = "filter" -> FilterCases [] Which = "select" -> SelectCases)
+CaseSeq == CASE Which = "scope" -> ScopeCaseSeq [] Which = "filter" -> SetToSeq(FilterCases)
+             [] Which = "select" -> SetToSeq(SelectCases)
 Tables == [lower |-> LowerOf, dec |-> DecOf]
-\* written once when TLC evaluates the assumption (before the behaviours are explored)
-ASSUME JsonSerialize(IOEnv.OUT_FILE, [cases |-> SetToSeq(Cases), tables |-> Tables])
-\* every case was a state (visited)
-NumCases == Cardinality(Cases)
-Visited == TLCGet("distinct") = NumCases
+\* written once when TLC evaluates the assumption (before the behaviours are explored); the harness checks
+\* that the number of distinct states of the run equals the number of distinct emitted cases (all visited)
+ASSUME JsonSerialize(IOEnv.OUT_FILE, [cases |-> CaseSeq, tables |-> Tables])
 
 \* ---- alphabets per tier ---------------------------------------------------------------
 Alpha5 == {"a", "A", "%61", "%2F", ""}
